@@ -2,6 +2,7 @@ package main
 
 import (
 	"fmt"
+	"math"
 
 	"github.com/welllog/golib/algz"
 
@@ -153,6 +154,11 @@ func genKnapsack(rng *ev.Rand, maxN int, wide bool) ([]item, int) {
 			w[rng.Intn(n)] = limit + rng.Range(1, 6)
 		}
 	}
+	if n > 0 && rng.Chance(1, 12) { // "unliftable" items: weights at the top of the int range
+		for k := rng.Range(1, 3); k > 0; k-- {
+			w[rng.Intn(n)] = rng.Pick(math.MaxInt, math.MaxInt-1, 1<<62, 1<<62+1, 1<<61, math.MaxInt/2+1, 1<<32, 1<<31)
+		}
+	}
 	items := make([]item, n)
 	for i := range items {
 		items[i] = item{ID: i, W: w[i], V: v[i]}
@@ -198,6 +204,9 @@ func knapsackCase(wide bool) func(c *ev.Case) {
 			vs := make([]int, n)
 			for i, it := range items {
 				ws[i], vs[i] = it.W, it.V
+				if ws[i] > limit { // infeasible either way; clamped so that subset sums cannot overflow
+					ws[i] = limit + 1
+				}
 			}
 			sw, sv := subsetSums(ws), subsetSums(vs)
 			best := 0
@@ -230,7 +239,11 @@ func knapsackCase(wide bool) func(c *ev.Case) {
 		seenW := map[int]int{}
 		seenV := map[int]int{}
 		for _, it := range items {
-			sumW += it.W
+			if it.W > math.MaxInt-sumW {
+				sumW = math.MaxInt
+			} else {
+				sumW += it.W
+			}
 			if it.W == 0 {
 				c.Add("ks_zero_weight_items", 1)
 			}
